@@ -138,4 +138,39 @@ def denoteList : List Expr → Except String (List (Iterable Val))
     | _, .error m => .error m
 end
 
+/-! ## `mem(obj, $I(k))` for the objects whose Get instance lives in src/Iter.c -/
+
+/-- every element the object hands out is an Int (a Zip / enumerate hands out Tuples: `eq(tuple, $I(k))` is not modelled) -/
+def Expr.intElems : Expr → Bool
+  | .zip _ => false
+  | .enum _ => false
+  | .slice e _ => e.intElems
+  | .filter e _ _ => e.intElems
+  | .map _ _ _ => true
+  | _ => true
+
+/-- `eq(item, $I(k))` on the universal values -/
+def eqKey (k : Int) : Val → Bool
+  | .int i => i == k
+  | .tup _ => false
+
+/-- `mem(obj, $I(k))`: Range_Mem (arithmetic on the fields), Slice_Mem (`while (curr)`), Filter_Mem / Map_Mem (`foreach`);
+    `none`: not an op of this engine (the containers' own `mem` belongs to C02 / C03 / C04; Zip elements are Tuples) -/
+def memOf (e : Expr) (k : Int) (fuel : Nat) : Option (Except String MemRes) :=
+  if !e.intElems then none else
+  match e with
+  | .range args => match rangeStack args with
+    | some (a, b, c) => some (.ok (if rangeMem a b c k then .yes else .no))
+    | none => some (.error "range-args")
+  | .slice _ _ => match denote e with
+    | .ok I => some (.ok (I.memWhileCurr (eqKey k) fuel))
+    | .error m => some (.error m)
+  | .filter _ _ _ => match denote e with
+    | .ok I => some (.ok (I.memForeach (eqKey k) fuel))
+    | .error m => some (.error m)
+  | .map _ _ _ => match denote e with
+    | .ok I => some (.ok (I.memForeach (eqKey k) fuel))
+    | .error m => some (.error m)
+  | _ => none
+
 end Cello.Iter
